@@ -114,6 +114,37 @@ def big():
     for n in range(1, 65):
         gs = tuple((f"g{i}", str(1 + i % 3)) for i in range(n))
         yield f"groups:{n}", prog("exp", ("uid",), ("ret", gs)), [{"uid": i} for i in range(8)]
+    # combined sizes: a chain whose last branch body is itself a chain (nesting 2), chains inside deep nesting
+    def chain(n, field, base, tail):
+        c = tail
+        for k in reversed(range(n)):
+            pred = ("cmp", ("id", field), "==", ("lit", k))
+            c = ("if" if k == 0 else "elif", pred, ("ret", ((f"{base}{k}", "1"),)), c)
+        return c
+
+    for n in (3, 20, 40, 55, 60):
+        inner = chain(n, "g", "in", None)
+        c = None
+        for k in reversed(range(n)):
+            pred = ("cmp", ("id", "f"), "==", ("lit", k))
+            body = inner if k == n - 1 else ("ret", ((f"out{k}", "1"),))
+            c = ("if" if k == 0 else "elif", pred, body, c)
+        envs = [{"uid": 1, "f": n - 1, "g": g} for g in (0, n - 1, n)] + [{"uid": 1, "f": 0, "g": 0}, {"uid": 1, "f": n, "g": 0}]
+        yield f"chain2:{n}", prog("exp", ("uid",), c), envs
+    for d in (3, 6, 12):
+        c = chain(8, f"f{d}", "leaf", None)
+        for k in reversed(range(d)):
+            c = ("if", ("cmp", ("id", f"f{k}"), "==", ("lit", 1)), c, ("else", chain(8, f"h{k}", f"e{k}_", None)))
+        base = dict({f"f{k}": 1 for k in range(d + 1)}, **{f"h{k}": 0 for k in range(d)}, uid=1)
+        envs = [dict(base, **{f"f{d}": v}) for v in (0, 7, 8)] + [dict(base, **{"f0": 0, "h0": v}) for v in (0, 7, 8)]
+        yield f"nestchain:{d}", prog("exp", ("uid",), c), envs
+    labels = ["Paris, FR", "a,b", "x = 1", "tab\t", "semi; colon", "quote'", "back\\slash", "{brace}", "%s", "#hash", "trailing ", " leading", "日本", "🎲",
+              "a, b, c", ", ", "weights=[1]", "]", "population", "\\n", "None", "1", "1.5", "True"]
+    for n in (3, 8, 9, 12, 24, 40, 64):
+        gs = tuple((f"{labels[i % len(labels)]}#{i}", str(1 + i % 2)) for i in range(n))
+        yield f"groups-labels:{n}", prog("exp", ("uid",), ("ret", gs)), [{"uid": i} for i in range(24)]
+        gs2 = tuple(((i if i % 3 == 0 else (i + 0.5 if i % 3 == 1 else f"s, {i}")), "1") for i in range(n))
+        yield f"groups-mixed:{n}", prog("exp", ("uid",), ("ret", gs2)), [{"uid": i} for i in range(24)]
     for n in (2, 5, 10, 20, 40, 60):
         for op in ("and", "or"):
             p = None
